@@ -30,13 +30,16 @@ fam({'C15': ('main', 'all')},
     driver='notifier', tv='NotifierTV', mc_quick=[('NotifierMC', 'NotifierMC_quick')], mc_thorough=[('NotifierMC', 'NotifierMC_big')],
     n=(70, 120, 2000, 4000))
 fam({'C14': ('main', 'all')},
-    driver='workers', tv='WorkersTV', mc_quick=[('WorkersL2', 'WorkersL2')], mc_thorough=[('WorkersL2', 'WorkersL2_big')],
+    driver='workers', tv='WorkersTV', mc_quick=[('WorkersL2', 'WorkersL2'), ('WorkersL2', 'WorkersL2_neg')],
+    mc_thorough=[('WorkersL2', 'WorkersL2_big'), ('WorkersL2', 'WorkersL2_neg')],
     n=(60, 200, 1500, 5000))
 fam({'C17': ('main', 'all')},
     driver='worker', tv='WorkerTV', mc_quick=[('WorkerL2', 'WorkerL2')], mc_thorough=[('WorkerL2', 'WorkerL2_big')],
     n=(80, 300, 2000, 6000))
 fam({'C09': ('keys', 'all'), 'C10': ('main', 'all')},
-    driver='exclusive', tv='ExclusiveTV', mc_quick=[], mc_thorough=[],
+    driver='exclusive', tv='ExclusiveTV',
+    mc_quick=[('ExclusiveL2', 'ExclusiveL2'), ('ExclusiveL2', 'ExclusiveL2_neg'), ('ExclusiveL2', 'ExclusiveL2_witness')],
+    mc_thorough=[('ExclusiveL2', 'ExclusiveL2_big'), ('ExclusiveL2', 'ExclusiveL2_neg'), ('ExclusiveL2', 'ExclusiveL2_witness')],
     n=(80, 300, 2000, 6000))
 
 
@@ -87,6 +90,12 @@ def run(ctx):
     for leg in f.get('legs', []):
         mcs += list(leg.get('mc_quick' if ctx.quick else 'mc_thorough', []))
     for spec, cfg in mcs:
+        if cfg.endswith('_neg') or cfg.endswith('_witness'):
+            # negative control / reachability witness: TLC MUST report a violation (the model can tell the difference)
+            job, out = run_mc(ctx, spec, cfg, workers=8, timeout=600, expect_ok=False)
+            if job['ok']:
+                raise Infra(f'negative control {spec}/{cfg} unexpectedly passed: the model has lost its sensitivity')
+            continue
         run_mc(ctx, spec, cfg, workers=8 if ctx.quick else 16, timeout=300 if ctx.quick else 3000)
     legs = [f] + [dict(f, **leg) for leg in f.get('legs', [])]
     for i, leg in enumerate(legs):
